@@ -531,6 +531,24 @@ def innerLoop (now : Time) : Nat → Dev → Action → Oracle → List Out → 
     else { r with out := acc ++ r.out }
 
 mutual
+/-- nesting depth of block statements: 0 for a statement without a block -/
+def depthS : Stmt → Nat
+  | .foreachplug b => depthB b + 1
+  | .foreachnode b => depthB b + 1
+  | .ifon b => depthB b + 1
+  | .ifoff b => depthB b + 1
+  | _ => 0
+def depthB : List Stmt → Nat
+  | [] => 0
+  | s :: r => max (depthS s) (depthB r)
+end
+
+/-- fuel for the `do … while` of `_process_action` (which has no bound in C): every iteration but the last pushes the
+    body of a block statement of the block the action stands in, so the loop makes at most `depthB` + 1 iterations and
+    this fuel is never used up (`Pm/InterpPass.lean`: `innerLoop_trip`) -/
+def loopBound (a : Action) : Nat := depthB (topCtx a).block + 1
+
+mutual
 /-- upper bound on the statements one run of a block can execute with `np` plugs -/
 def weight (np : Nat) : Stmt → Nat
   | .foreachplug b => 2 + (np + 1) * (weights np b + 1)
@@ -584,7 +602,7 @@ def advance (a : Action) : Action :=
 def onRun (k : CS → Oracle → List Out → Option Time → PA) (rest : List Action) (c : CS) (a : Action) (o : Oracle)
     (out : List Out) (tmo : Option Time) (left : Time) : PA :=
   let d := c.dev
-  let r := innerLoop c.env.now 64 { d with wake := none } a o []
+  let r := innerLoop c.env.now (loopBound a) { d with wake := none } a o []
   let out := out ++ r.out
   if hasAbort r.out then
     ({ c with dev := { r.dev with acts := r.act :: rest }, aborted := true }, r.oracle, out, tmo) else
